@@ -2,6 +2,7 @@ package props
 
 import (
 	"fmt"
+	consensustypes "github.com/cosmos/cosmos-sdk/x/consensus/types"
 
 	sdk "github.com/cosmos/cosmos-sdk/types"
 	authtypes "github.com/cosmos/cosmos-sdk/x/auth/types"
@@ -153,6 +154,16 @@ func (g *G) genGovTx() *world.TxStep {
 		}
 		var inner sdk.Msg = &distrtypes.MsgCommunityPoolSpend{Authority: govAddr.String(), Recipient: burn.String(), Amount: amt}
 		title := "pay the burn address"
+		if g.chance("gov-consensus-params", g.bias("gov-consensus-params", 20)) {
+			// the chain's consensus parameters change through governance only; the limits stay far
+			// above anything a generated block needs, so no transaction becomes inadmissible
+			cp := simnet.ConsensusParams()
+			cp.Block.MaxGas = pick(g, "max-gas", []int64{-1, 1_000_000_000, 100_000_000, 50_000_000})
+			cp.Block.MaxBytes = pick(g, "max-bytes", []int64{22020096, 4194304, 10485760})
+			cp.Evidence.MaxAgeNumBlocks = pick(g, "evidence-age", []int64{302400, 100000})
+			inner = &consensustypes.MsgUpdateParams{Authority: govAddr.String(), Block: cp.Block, Evidence: cp.Evidence, Validator: cp.Validator}
+			title = "change the consensus parameters"
+		}
 		dep := sdk.NewCoins(sdk.NewInt64Coin(simnet.BondDenom, int64(pick(g, "deposit", []int{10000000, 10000000, 20000000, 5000000}))))
 		m, err := govv1.NewMsgSubmitProposal([]sdk.Msg{inner}, dep, w.Accts[g.acct("proposer")].Addr.String(), "", title, title)
 		if err != nil {
@@ -184,4 +195,34 @@ func (g *G) genCrisisTx() *world.TxStep {
 	msg := crisistypes.NewMsgVerifyInvariant(g.W.Accts[g.acct("sender")].Addr, r[0], r[1])
 	signers, how := g.signersFor([]sdk.Msg{msg}, 0, 97, false)
 	return &world.TxStep{Msgs: []world.MsgJSON{world.EncodeMsg(msg)}, Signers: signers, Fee: g.fee("fee"), Note: "verify-invariant " + r[0] + "/" + r[1] + " signers=" + how}
+}
+
+// genBankSetup draws a bank genesis variation: transfers of some denominations switched off
+// (per denomination or by default), and coins the burn address holds from the first block on,
+// typically also in a denomination that can no longer be sent.
+func (g *G) genBankSetup() *world.BankSetup {
+	b := &world.BankSetup{DefaultSendEnabled: !g.chance("default-send-disabled", 15)}
+	denoms := []string{simnet.FeeDenom, simnet.BondDenom, simnet.ThirdDenom, "v00", "v01", "v07", "v31"}
+	n := g.intn("n-send-disabled", 4)
+	seen := map[string]bool{}
+	for i := 0; i < n; i++ {
+		d := pick(g, "send-disabled", denoms)
+		if !seen[d] {
+			seen[d] = true
+			b.SendDisabled = append(b.SendDisabled, d)
+		}
+	}
+	if g.chance("burn-address-genesis-coins", 75) {
+		coins := sdk.NewCoins()
+		for _, d := range b.SendDisabled {
+			if g.chance("holds-"+d, 70) {
+				coins = coins.Add(sdk.NewInt64Coin(d, int64(1+g.intn("amt-"+d, 1000000))))
+			}
+		}
+		for i := g.intn("n-other", 3); i > 0; i-- {
+			coins = coins.Add(sdk.NewInt64Coin(pick(g, "other-denom", denoms), int64(1+g.intn("other-amt", 1000000))))
+		}
+		b.BurnAddressCoins = coins.String()
+	}
+	return b
 }
